@@ -156,6 +156,22 @@ pub fn run(cli: &Cli, rep: &Report) {
             }
         }
     }
+    // a block of more than 2^24 (thorough: 2^28) bytes: its size needs a four- (five-) byte multibyte integer in the index;
+    // written in one call and in 1 MiB pieces, with and without a block size that splits it
+    {
+        let mut big = vec![(1usize << 24) + 1];
+        if thorough {
+            big.push((1 << 28) + 1);
+        }
+        for total in big {
+            for ops in [vec![], pieces(total, 1 << 20)] {
+                for (check, block) in [(1u8, None), (4, Some(1u64 << 22)), (0, None)] {
+                    cases.push(Case { cont: Container::Xz { check, block, filters: vec![] }, opts: opts_with_dict(65536), input: Input::Shape(vec![Seg::Z(total)]), ops: ops.clone() });
+                }
+                cases.push(Case { cont: Container::Lzip { member: None }, opts: opts_with_dict(65536), input: Input::Shape(vec![Seg::Z(total)]), ops });
+            }
+        }
+    }
     rep.extra("cases", json!({"micro_len": l, "micro_strings": n_micro, "micro_cases": n_micro_cases, "shape_cases": cases.len() - n_micro_cases, "chains": chains.len(), "shapes": shapes.len()}));
 
     let n = cases.len();
@@ -245,6 +261,39 @@ fn xz_one(rep: &Report, d: u64, report: bool) -> bool {
     ok
 }
 
+/// one value of the XZ multibyte-integer sweep
+fn vli_one(rep: &Report, v: u64, report: bool) -> bool {
+    let (counted, enc, parsed, counted_from_bytes) = diff::xz_multibyte_integer(v);
+    let want = if v == 0 { 1 } else { (64 - v.leading_zeros() as usize).div_ceil(7) };
+    let problem = match enc {
+        None => {
+            if v <= u64::MAX / 2 {
+                Some("a 63-bit value is refused".to_string())
+            } else {
+                None
+            }
+        }
+        Some((_, n)) => {
+            if v > u64::MAX / 2 {
+                Some("a value above 2^63 - 1 is encoded".to_string())
+            } else if n != want || counted != n || counted_from_bytes != n || parsed != Some(v) {
+                Some(format!("encoded in {n} bytes (format: {want}), size function says {counted}, size from bytes {counted_from_bytes}, parsed back {parsed:?}"))
+            } else {
+                None
+            }
+        }
+    };
+    if let (Some(p), true) = (&problem, report) {
+        rep.violation(
+            Violation::new("vli-mismatch", "xz multibyte integer: size function, encoder and parser disagree", format!("C02|sweep|vli|v={v}"))
+                .attr("family", "xz")
+                .attr("sweep", "xz-vli")
+                .detail(p.clone()),
+        );
+    }
+    problem.is_none()
+}
+
 fn sweeps(cli: &Cli, rep: &Report, thorough: bool) {
     if let Some(only) = &cli.only {
         // replay: just the values named by the selected descriptors
@@ -255,6 +304,9 @@ fn sweeps(cli: &Cli, rep: &Report, thorough: bool) {
             } else if let Some(d) = desc.strip_prefix("C02|sweep|xz|d=").and_then(|x| x.parse::<u64>().ok()) {
                 rep.add("evaluations", 1);
                 xz_one(rep, d, true);
+            } else if let Some(v) = desc.strip_prefix("C02|sweep|vli|v=").and_then(|x| x.parse::<u64>().ok()) {
+                rep.add("evaluations", 1);
+                vli_one(rep, v, true);
             }
         }
         return;
@@ -351,5 +403,24 @@ fn sweeps(cli: &Cli, rep: &Report, thorough: bool) {
     rep.add("sweep.xz_dict_sizes", evals2.load(Ordering::Relaxed));
     rep.add("sweep.xz_bad", bad2.load(Ordering::Relaxed));
     rep.add("evaluations", evals2.load(Ordering::Relaxed));
+    // XZ multibyte integers: the size the index / footer arithmetic assumes, the bytes written and the parser must agree
+    // for every value 2^k - 1, 2^k, 2^k + 1 (k = 0..63), every value below 2^17, and 3 * 2^k, 5 * 2^k, 2^k + 2^(k-4)
+    let mut vli_values: Vec<u64> = (0..(1u64 << 17)).collect();
+    for k in 0..64u32 {
+        let p = 1u64 << k;
+        for v in [p.wrapping_sub(1), p, p.wrapping_add(1), p.wrapping_mul(3), p.wrapping_mul(5), p.wrapping_add(p >> 4)] {
+            vli_values.push(v);
+        }
+    }
+    vli_values.push(u64::MAX / 2);
+    vli_values.push(u64::MAX);
+    let mut vli_bad = 0u64;
+    for &v in &vli_values {
+        if !vli_one(rep, v, vli_bad < 16) {
+            vli_bad += 1;
+        }
+    }
+    rep.add("sweep.xz_vli_values", vli_values.len() as u64);
+    rep.add("evaluations", vli_values.len() as u64);
     rep.sample(json!({"sweep": "lzip encode/decode_dict_size and xz encode_lzma2_dict_size", "lzip_values": evals.load(Ordering::Relaxed), "xz_values": evals2.load(Ordering::Relaxed)}));
 }
